@@ -421,6 +421,12 @@ FN = "<c05prog>"
 _LOADS = None
 
 
+def _quoted(msg):
+    import re
+    m = re.search(r"'([^']*)'", msg)
+    return m.group(1) if m else "?"
+
+
 def _is_registry(o):
     return isinstance(o, _M) and sys.modules.get(o.__name__) is o
 
@@ -449,6 +455,7 @@ def run_once(src, marker, g):
     st = dict(mod=None, early=False)
     executed = set()
     ne, ae, local_ne = [], [], []
+    other = [False]
 
     def local(frame, event, arg):
         if event == "opcode":
@@ -457,16 +464,18 @@ def run_once(src, marker, g):
             et, ev, tb = arg
             if tb is not None and tb.tb_next is None:
                 if isinstance(ev, UnboundLocalError):
-                    local_ne.append(getattr(ev, "name", None))
+                    local_ne.append(_quoted(str(ev)))
                 elif isinstance(ev, NameError):
                     if "free variable" in str(ev):
-                        local_ne.append(ev.name)
+                        local_ne.append(_quoted(str(ev)))
                     elif ev.name not in ne:
                         ne.append(ev.name)
                 elif isinstance(ev, AttributeError) and _is_registry(getattr(ev, "obj", None)):
                     d = ev.obj.__name__ + "." + str(ev.name)
                     if d not in ae:
                         ae.append(d)
+                elif not (type(ev) is Exception and not ev.args) and not isinstance(ev, (StopIteration, GeneratorExit)):
+                    other[0] = True
         return local
 
     def tracer(frame, event, arg):
@@ -518,6 +527,7 @@ def run_once(src, marker, g):
             if c is co and off in ins and ins[off].opname in ("STORE_NAME", "STORE_GLOBAL", "STORE_FAST", "STORE_DEREF"):
                 stores.add((ins[off].argval, ins[off].positions.lineno))
     return dict(ne=ne, ae=ae, local_ne=local_ne, outcome=outcome, all_read=all_read, early=st["early"],
+                other_raised=other[0] or outcome.startswith("Other"),
                 stores=sorted([n, l] for n, l in stores if l is not None))
 
 
@@ -608,6 +618,8 @@ class Gen(object):
         self.wild = wild
         self.ext = ext       # unclaimed extension statements (global/nonlocal/del)
         self.features = set()
+        self.V, self.F, self.C, self.R, self.S, self.M, self.A = VNAMES, FNAMES, CNAMES, ROOTS, SUBS, MEMBERS, ATTRS
+        self.B = BUILTIN_READS
 
     # -- helpers ------------------------------------------------------------
     def ch(self, xs):
@@ -617,30 +629,30 @@ class Gen(object):
         return self.rng.random() < x
 
     def vname(self):
-        return self.ch(VNAMES)
+        return self.ch(self.V)
 
     def read_name(self, fctx):
         r = self.rng.random()
         if r < 0.62:
             return ["name", self.vname()]
         if r < 0.80:
-            return ["name", self.ch(ROOTS)]
+            return ["name", self.ch(self.R)]
         if r < 0.86:
-            return ["name", self.ch(BUILTIN_READS)]
+            return ["name", self.ch(self.B)]
         if r < 0.86 + self.wild:
-            return ["name", self.ch(FNAMES + CNAMES)]
+            return ["name", self.ch(self.F + self.C)]
         return ["name", self.vname()]
 
     def chain(self, fctx):
         r = self.rng.random()
         if r < 0.55:
-            e = ["name", self.ch(ROOTS)]
+            e = ["name", self.ch(self.R)]
             for _ in range(self.ch([1, 1, 2, 3])):
-                e = ["attr", e, self.ch(SUBS + SUBS + MEMBERS + ATTRS)]
+                e = ["attr", e, self.ch(self.S + self.S + self.M + self.A)]
             return e
         e = ["name", self.vname()]
         for _ in range(self.ch([1, 1, 2])):
-            e = ["attr", e, self.ch(ATTRS + SUBS + MEMBERS)]
+            e = ["attr", e, self.ch(self.A + self.S + self.M)]
         return e
 
     def target(self, simple=False):
@@ -648,9 +660,9 @@ class Gen(object):
         if simple or r < 0.72:
             return ["name", self.vname()]
         if r < 0.84:
-            return ["attr", ["name", self.ch(VNAMES + ROOTS)], self.ch(ATTRS + SUBS)]
+            return ["attr", ["name", self.ch(self.V + self.R)], self.ch(self.A + self.S)]
         if r < 0.90:
-            return ["attr", ["attr", ["name", self.ch(VNAMES + ROOTS)], self.ch(ATTRS + SUBS)], self.ch(ATTRS)]
+            return ["attr", ["attr", ["name", self.ch(self.V + self.R)], self.ch(self.A + self.S)], self.ch(self.A)]
         if r < 0.95:
             return ["subscript", ["name", self.vname()], ["const"]]
         return ["tuple", [["name", self.vname()]]]
@@ -677,9 +689,9 @@ class Gen(object):
             return ["name", self.vname()]
         if r < 0.8:
             return self.chain(fctx)
-        if fctx is not None and fctx < len(FNAMES) - 1 and r < 0.95:
-            return ["name", self.ch(FNAMES[fctx + 1:])]
-        return ["name", self.ch(BUILTIN_READS[:1] + VNAMES)]
+        if fctx is not None and fctx < len(self.F) - 1 and r < 0.95:
+            return ["name", self.ch(self.F[fctx + 1:])]
+        return ["name", self.ch(self.B[:1] + self.V)]
 
     def gens(self, d, fctx):
         out = []
@@ -784,14 +796,14 @@ class Gen(object):
     # -- statements -----------------------------------------------------------
     def imp(self):
         r = self.rng.random()
-        root = self.ch(ROOTS)
+        root = self.ch(self.R)
         if r < 0.3:
             return ["import", [[root, None if self.p(0.8) else self.vname()]]]
         if r < 0.55:
-            dotted = root + "." + self.ch(SUBS) + ("." + self.ch(SUBS) if self.p(0.25) else "")
+            dotted = root + "." + self.ch(self.S) + ("." + self.ch(self.S) if self.p(0.25) else "")
             return ["import", [[dotted, None if self.p(0.8) else self.vname()]]]
-        mod = root + ("." + self.ch(SUBS) if self.p(0.3) else "")
-        n = self.ch(SUBS + MEMBERS)
+        mod = root + ("." + self.ch(self.S) if self.p(0.3) else "")
+        n = self.ch(self.S + self.M)
         return ["importFrom", mod, [[n, None if self.p(0.7) else self.vname()]]]
 
     def body(self, d, fctx, kind, n=None):
@@ -861,10 +873,10 @@ class Gen(object):
     def funcdef(self, d, fctx, kind):
         self.features.add("def")
         lo = 0 if fctx is None else fctx + 1
-        if lo >= len(FNAMES):
+        if lo >= len(self.F):
             return ["assign", [["name", self.vname()]], self.expr(2, fctx)]
-        idx = self.rng.randrange(lo, len(FNAMES))
-        name = FNAMES[idx]
+        idx = self.rng.randrange(lo, len(self.F))
+        name = self.F[idx]
         a = self.args(2, fctx, name=name)
         decos = [self.ch([["const"], ["name", self.vname()], self.chain(fctx)])] if self.p(0.12) else []
         ret = self.expr(1, fctx, small=True) if self.p(0.12) else None
@@ -876,7 +888,7 @@ class Gen(object):
 
     def classdef(self, d, fctx, kind):
         self.features.add("class")
-        name = self.ch(CNAMES)
+        name = self.ch(self.C)
         bases = []
         if self.p(0.2):
             bases = [self.ch([["name", self.vname()], self.chain(fctx), ["name", name]])]
